@@ -45,7 +45,7 @@ TreeVariants == {[par |-> p, imp |-> i, num |-> IF i THEN "x" ELSE "d", var |-> 
                 \cup {[par |-> "min", imp |-> FALSE, num |-> "b", var |-> "boxed"],
                       [par |-> "full", imp |-> TRUE, num |-> "f", var |-> "boxed"]}
 TreeLaw(t) ==
-  \A v \in TreeVariants :
+  \A v \in {w \in TreeVariants : NOps(t) <= 2 \/ w.var # "boxed"} :
     LET toks == PrintF(t, v)
         ia == IParse(Render(toks, FALSE))
         ib == IParse(Render(toks, TRUE)) IN
@@ -91,7 +91,9 @@ ArithLaw ==
        /\ (a >= 0 /\ b > 0) => BinVal("%", I(a), I(b)).n = a - b * (a \div b)
        /\ (a >= 0 /\ b >= 0) => BinVal(">>", BinVal("<<", I(a), I(b)), I(b)) = I(a)
        /\ (b >= 0) => BinVal("^", I(a), I(b)).def /\ (b > 0 => BinVal("^", I(a), I(b)) = RMul(BinVal("^", I(a), I(b - 1)), I(a)))
-       /\ (a # 0 /\ b > 0) => SameVal(RMul(BinVal("^", I(a), I(0 - b)), BinVal("^", I(a), I(b))), I(1))
+       /\ (a # 0 /\ b > 0 /\ BinVal("^", I(a), I(0 - b)).def) =>
+            SameVal(RMul(BinVal("^", I(a), I(0 - b)), BinVal("^", I(a), I(b))), I(1))
+       /\ (a # 0 /\ b \in 1..3) => BinVal("^", I(a), I(0 - b)).def
        /\ ~BinVal("/", I(a), I(0)).def /\ ~BinVal("%", I(a), I(0)).def /\ ~BinVal("<<", I(a), I(0 - 1)).def
   /\ \A a \in -20..20 :
        LET h == Mk(a, 4, EXACT) IN          \* quarters
@@ -111,7 +113,7 @@ SubstLaw ==
     /\ SameVal(Value(Subst(Un(u, Bin(o, a, b)), bd), bd), Value(Un(u, Bin(o, a, b)), bd))
     /\ VarFree(Subst(Bin(o, a, b), bd))
     /\ VarFree(Bin(o, a, b)) => \A bd2 \in Binds : Value(Bin(o, a, b), bd) = Value(Bin(o, a, b), bd2)
-ValueLaw == PrecLaw /\ ArithLaw /\ SubstLaw
+ValueLaw == SpellTableOK /\ VarTableOK /\ PrecLaw /\ ArithLaw /\ SubstLaw
 
 \* ------------------------------------------------------------- state space
 Init ==
